@@ -107,6 +107,10 @@ pub struct DelegCase {
     /// of the same method that never matches (`some_call(<rejects>).returns(0)` declared before it)
     #[serde(default)]
     pub catch_all_default: bool,
+    /// the provided method also has a real function registered (`unmock_with=[_, _, real_d(a, b)]`): the default
+    /// body must still be what runs (no clause says applies_unmocked(); an unmentioned provided method runs its body)
+    #[serde(default)]
+    pub provided_has_real_fn: bool,
 }
 
 /// response of required method m for argument x (a known function, so results can be predicted)
@@ -222,8 +226,14 @@ pub fn source(c: &DelegCase) -> String {
     } else {
         rd
     };
+    let attr = if c.provided_has_real_fn {
+        s.push_str("pub fn real_d(a: u32, b: u32) -> u32 {\n    log(format!(\"REAL-FUNCTION-OF-d:{a}:{b}\"));\n    777_000_000 + a + b\n}\n\n");
+        "#[unimock(api=M, unmock_with=[_, _, real_d(a, b)])]"
+    } else {
+        "#[unimock(api=M)]"
+    };
     s.push_str(&format!(
-        "#[unimock(api=M)]\npub trait Tr{sized} {{\n    fn r0({rd_req}, x: u32) -> u32;\n    fn r1({rd_req}, x: u32) -> u32;\n    fn d{dgen}({rd}, a: u32, b: u32{dparam}) -> u32 {{\n{}    }}\n}}\n\n",
+        "{attr}\npub trait Tr{sized} {{\n    fn r0({rd_req}, x: u32) -> u32;\n    fn r1({rd_req}, x: u32) -> u32;\n    fn d{dgen}({rd}, a: u32, b: u32{dparam}) -> u32 {{\n{}    }}\n}}\n\n",
         body_source(c)
     ));
     s.push_str("pub fn run() -> String {\n");
@@ -396,6 +406,7 @@ pub fn judge(c: &DelegCase, line: &str) -> Result<CaseInfo, String> {
     })
     .class_if(c.partial, "partial-mock")
     .class_if(c.generic_method, "provided-method-has-a-type-parameter")
+    .class_if(c.provided_has_real_fn, "provided-method-also-has-a-real-function")
     .class_if(c.catch_all_default && c.explicit_default_impl && !c.ordered && c.default_body_calls().is_none(), "catch-all-applies_default_impl-after-a-specific-clause")
     .class_if(c.ordered, "required:ordered")
     .class_if(!c.ordered, "required:unordered")
@@ -453,9 +464,9 @@ pub fn case_strategy() -> impl Strategy<Value = DelegCase> {
         any::<bool>(),
         proptest::bool::weighted(0.4),
         any::<bool>(),
-        (prop_oneof![2 => Just(0u8), 1 => 1..8u8], proptest::bool::weighted(0.3), proptest::bool::weighted(0.3)),
+        (prop_oneof![2 => Just(0u8), 1 => 1..8u8], proptest::bool::weighted(0.3), proptest::bool::weighted(0.3), proptest::bool::weighted(0.3)),
     )
-        .prop_map(|(recv, mut body, mut history, ordered, explicit_default_impl, partial, later_answering_clause, (then_answer_after, generic_method, catch_all_default))| {
+        .prop_map(|(recv, mut body, mut history, ordered, explicit_default_impl, partial, later_answering_clause, (then_answer_after, generic_method, catch_all_default, provided_has_real_fn))| {
             if recv == Recv::Value {
                 // a by-value receiver is consumed by the first call it is passed to
                 body.calls.truncate(1);
@@ -464,7 +475,7 @@ pub fn case_strategy() -> impl Strategy<Value = DelegCase> {
                 }
                 history.truncate(1);
             }
-            DelegCase { recv, body, history, ordered, explicit_default_impl, partial, later_answering_clause, then_answer_after, generic_method, catch_all_default }
+            DelegCase { recv, body, history, ordered, explicit_default_impl, partial, later_answering_clause, then_answer_after, generic_method, catch_all_default, provided_has_real_fn }
         })
 }
 
